@@ -82,18 +82,24 @@ def run(ck):
             for (attr, n) in _state_writes(f):
                 outside.append("%s:%s writes %s" % (rel, q, attr))
     ck.ob("R1", "adjacency:who-writes", not outside, REL, "adjacency state written outside DiGraph's mutators: %s" % outside[:4])
-    fn = meths["add_edge"]
-    s, d = fn.args.args[1].arg, fn.args.args[2].arg
-    txt = [norm(n) for n in walk_body(fn) if isinstance(n, ast.Call)]
-    ok = "self._edges.append((%s, %s))" % (s, d) in txt and "self._nodes_succ[%s].append(%s)" % (s, d) in txt and \
-        "self._nodes_pred[%s].append(%s)" % (d, s) in txt
-    ck.ob("R1", "DiGraph.add_edge:three-structures", ok, m.where(fn), "add_edge must append (src,dst) to _edges, dst to _nodes_succ[src] and src to _nodes_pred[dst]")
-    fn = meths["del_edge"]
-    s, d = fn.args.args[1].arg, fn.args.args[2].arg
-    txt = [norm(n) for n in walk_body(fn) if isinstance(n, ast.Call)]
-    ok = "self._edges.remove((%s, %s))" % (s, d) in txt and "self._nodes_succ[%s].remove(%s)" % (s, d) in txt and \
-        "self._nodes_pred[%s].remove(%s)" % (d, s) in txt
-    ck.ob("R1", "DiGraph.del_edge:three-structures", ok, m.where(fn), "del_edge must remove (src,dst) from _edges, dst from _nodes_succ[src] and src from _nodes_pred[dst]")
+    def effects(fn):
+        """container effects (method, receiver, arguments) of fn with aliases / temporaries expanded"""
+        from sa.prenorm import normalise_function
+        from sa.astutil import Resolver
+        f2 = normalise_function(fn)
+        res = Resolver(f2)
+        out = set()
+        for n in walk_body(f2):
+            if isinstance(n, ast.Call) and isinstance(n.func, ast.Attribute) and n.func.attr in ("append", "remove", "add", "discard"):
+                out.add((n.func.attr, res.expand(n.func.value), tuple(res.expand(a) for a in n.args)))
+        return out
+    for mname, eff, verb in (("add_edge", "append", "append"), ("del_edge", "remove", "remove")):
+        fn = meths[mname]
+        s, d = fn.args.args[1].arg, fn.args.args[2].arg
+        got = effects(fn)
+        want = set([(eff, "self._edges", ("(%s, %s)" % (s, d),)), (eff, "self._nodes_succ[%s]" % s, (d,)), (eff, "self._nodes_pred[%s]" % d, (s,))])
+        ck.ob("R1", "DiGraph.%s:three-structures" % mname, want <= got, m.where(fn),
+              "%s must %s (src,dst) in _edges, dst in _nodes_succ[src] and src in _nodes_pred[dst]; missing: %s" % (mname, verb, sorted(want - got)))
     fn = meths["add_node"]
     ok = any(isinstance(n, ast.Assign) and norm(n.targets[0]).startswith("self._nodes_succ[") for n in walk_body(fn)) and \
         any(isinstance(n, ast.Assign) and norm(n.targets[0]).startswith("self._nodes_pred[") for n in walk_body(fn)) and \
